@@ -462,4 +462,3 @@ func init() {
 		return fmt.Sprintf("ok vals=%s data=%s", pairsHex(m.Values()), hx(d)), fails
 	})
 }
-
